@@ -399,12 +399,6 @@ class _MainStub:
             return torch.ones((k, 1), dtype=torch.bool)
         m = self.env.tensor("m_acc%d" % self.calls, (k, 1))
         self.masks.append(m)
-        if self.calls == 2 and self.env.symbolic:
-            # stated assumption (placed before the code it constrains): at least one point of the first two
-            # grids lies on the combined boundary -- otherwise the surface estimate is 0 and the real code
-            # stops with OverflowError (int(inf)), which is outside this case's claim
-            L = self.env.L
-            self.env.assume(L.Or(*[L.gt(v, 0) for mm in self.masks for v in SH.elems(self.env, mm)]))
         return m > 0
 
 
@@ -481,6 +475,10 @@ def boolean_boundary_grid_case(n=2):
         a, b = [SH.elems(env, o.base)[0] + SH.elems(env, o.slope)[0] * t for o in (oa, ob)]
         # stated bound: outline measures within a factor 2 of each other (rescaled grids of at most 5 points)
         env.assume(L.And(L.gt(a, 0), L.gt(b, 0), L.le(a, 2 * b), L.le(b, 2 * a)))
+        # the combined boundary has positive measure and each outline is at most twice as long (used only on the
+        # path where no first-grid point survives and the helper falls back to random boundary points)
+        mm = SH.elems(env, main.base)[0] + SH.elems(env, main.slope)[0] * t
+        env.assume(L.And(L.gt(mm, 0), L.le(a, 2 * mm), L.le(b, 2 * mm)))
         n = n_req
         stopped = False
         try:
@@ -518,7 +516,8 @@ def boolean_boundary_grid_case(n=2):
                     L.And(L.le(sb * S, n * n * b), L.lt(n * n * b, (sb + 1) * S)),
                     L.And(sb == 1, L.lt(n * n * b, S))))
 
-    return Case(cname, body, goals, family="boolean_boundary/grid", max_paths=80 if n == 2 else 400,
+    return Case(cname, body, goals, family="boolean_boundary/grid",
+                max_paths=80 if n == 2 else 400,
                 max_forks_per_site=8 if n == 2 else 16, int_hi=6 if n == 2 else 3 * n + 1)
 
 
